@@ -515,6 +515,22 @@ func (h *Handler) Peek() []string {
 	defer h.mu.Unlock()
 	return append([]string{}, h.Log...)
 }
+
+// TakeThrough removes and returns the log up to and including the first entry called name (everything if there is none).
+func (h *Handler) TakeThrough(name string) []string {
+	h.mu.Lock()
+	defer h.mu.Unlock()
+	for i, n := range h.Log {
+		if n == name {
+			r := append([]string{}, h.Log[:i+1]...)
+			h.Log = append([]string{}, h.Log[i+1:]...)
+			return r
+		}
+	}
+	r := h.Log
+	h.Log = nil
+	return r
+}
 func (h *Handler) Take() []string {
 	h.mu.Lock()
 	defer h.mu.Unlock()
